@@ -12,6 +12,7 @@ From FT Require Import Base.Dict Model.Edit Model.EditExec Proofs.EditInv Proofs
 From FT Require Proofs.EditSwap.
 From FT Require Proofs.EditNodeBasic Proofs.EditBook Proofs.EditUDN Proofs.EditUAN Proofs.EditWFEdge.
 From FT Require Gen.History_gen Proofs.HistoryGen Props.C02.
+From FT Require Proofs.EditBook Proofs.EditWFNode.
 Import ListNotations.
 Open Scope Z_scope.
 
@@ -132,6 +133,18 @@ Theorem C03_history_is_generated : forall st a dA,
    end).
 Proof. exact FT.Props.C02.C02_edit_machine_uses_generated. Qed.
 
+(* ---- the same with the node calls: every state reachable from a well-formed state by any sequence, of
+        any length, of UserAddNode / UserDeleteNode / edge-level calls (accepted or refused) satisfies the
+        complete invariant WF, provided each UserAddNode respects its documented preconditions at the moment
+        it is made (op_pre: integer time / track id, no caller-supplied lineage id, and - with a
+        segmentation - a non-zero id and pixels of the node's own frame that are background; the three
+        accepted-but-invariant-breaking calls of Proofs/EditWFNodeExample.v show each part is needed) ---- *)
+Theorem C03_run_node_calls : forall ops st,
+  forallb EditWFNode.node_fragment ops = true -> WF st -> EditBook.rp_disjoint st ->
+  (forall pre o post, ops = pre ++ o :: post -> EditWFNode.op_pre (run st pre) o) ->
+  WF (run st ops).
+Proof. exact EditWFNode.run_node_WF. Qed.
+
 Example C03_nonvacuous :
   (* 6 cannot be a child of 1 (third child) but 4 -> 6 is fine; 2 -> 5 is a merge: refused (forceable), forced it cuts 3 -> 5 *)
   fst (snd (step fx (OAddEdge 1 6 false))) = 10 /\
@@ -155,3 +168,4 @@ Print Assumptions C03_add_node.
 Print Assumptions C03_add_node_accepted_iff.
 Print Assumptions C03_run_edge_calls.
 Print Assumptions C03_history_is_generated.
+Print Assumptions C03_run_node_calls.
